@@ -970,6 +970,22 @@ class Interp:
             path = (p.get("res") or {}).get("path", "")
             if path.endswith("Option::None"):
                 return v is None
+        if k == "slice" and isinstance(v, list):
+            pre, post, mid = p.get("pre") or [], p.get("post") or [], p.get("mid")
+            if (mid is None and len(v) != len(pre) + len(post)) or len(v) < len(pre) + len(post):
+                return False
+            if not all(self.bind(s_, x, env) for s_, x in zip(pre, v)):
+                return False
+            if post and not all(self.bind(s_, x, env) for s_, x in zip(post, v[len(v) - len(post):])):
+                return False
+            if isinstance(mid, dict):
+                return self.bind(mid, v[len(pre):len(v) - len(post)], env)
+            return True
+        if k == "struct" and isinstance(v, tuple) and len(v) == 2 and v[0] == "struct":
+            for fname, fpat in p.get("fields", []):
+                if fname not in v[1] or not self.bind(fpat, v[1][fname], env):
+                    return False
+            return True
         raise NotEvaluable(f"pattern {k}")
 
     def ev(self, e, env):
@@ -998,6 +1014,8 @@ class Interp:
                 if r["path"] not in memo:
                     memo[r["path"]] = self.ev(self.crate.hir[r["path"]]["body"], {})
                 return memo[r["path"]]
+            if (r.get("path") or "").endswith("option::Option::None"):
+                return None
             raise NotEvaluable(f"path {r.get('path')}")
         if k == "ref":
             return self.ev(e["e"], env)
@@ -1046,8 +1064,13 @@ class Interp:
             env2 = dict(env)
             for s in e.get("stmts") or []:
                 if s.get("k") == "slet":
-                    if s.get("init") is None or s.get("els"):
-                        raise NotEvaluable("let without initialiser / let-else")
+                    if s.get("init") is None:
+                        raise NotEvaluable("let without initialiser")
+                    if s.get("els"):
+                        if not self.bind(s["pat"], self.ev(s["init"], env2), env2):
+                            self.ev(s["els"], env2)          # diverges (return / break / continue)
+                            raise NotEvaluable("let-else whose else block does not diverge")
+                        continue
                     self.bind(s["pat"], self.ev(s["init"], env2), env2)
                 elif s.get("k") == "semi":
                     self.ev(s["e"], env2)
@@ -1115,6 +1138,9 @@ class Interp:
                 return ("Ok", args[0])
             if self.crate is not None and c in self.crate.hir and self.crate.hir[c].get("kind") in ("Fn", "AssocFn"):
                 return self.call_fn(self.crate.hir[c], args)
+            cinfo = e.get("callee") if isinstance(e.get("callee"), dict) else {}
+            if cinfo.get("ctor") and cinfo.get("kind") == "Variant" and not c.startswith("core::"):
+                return ("enum", c, [_plain(a) for a in args])         # a user enum's tuple-variant constructor
             raise NotEvaluable(f"call {c}")
         if k == "struct":
             path = (e.get("res") or {}).get("path", "")
